@@ -53,6 +53,45 @@ pub unsafe extern "C" fn getrandom(buf: *mut u8, len: usize, _flags: u32) -> isi
     len as isize
 }
 
+// ---- harness output --------------------------------------------------------------------------
+// The repository's \tracingmacros hook (and \sleep, and StdLibState's default terminal) print to
+// the real stdout with println!. So that this code can run unmodified, file descriptor 1 is
+// pointed at /dev/null for the whole process and the harness writes its own lines to a duplicate
+// of the original stdout.
+
+static OUT: std::sync::OnceLock<std::sync::Mutex<std::fs::File>> = std::sync::OnceLock::new();
+
+pub fn init_output() {
+    use std::os::fd::FromRawFd;
+    unsafe {
+        let saved = libc::dup(1);
+        let devnull = libc::open(c"/dev/null".as_ptr(), libc::O_WRONLY);
+        if saved >= 0 && devnull >= 0 {
+            libc::dup2(devnull, 1);
+            libc::close(devnull);
+            let _ = OUT.set(std::sync::Mutex::new(std::fs::File::from_raw_fd(saved)));
+        }
+    }
+}
+
+pub fn out_line(s: &str) {
+    use std::io::Write;
+    match OUT.get() {
+        Some(f) => {
+            let mut f = f.lock().unwrap();
+            let _ = writeln!(f, "{s}");
+            let _ = f.flush();
+        }
+        None => println!("{s}"),
+    }
+}
+
+#[macro_export]
+macro_rules! outln {
+    () => { $crate::process::out_line("") };
+    ($($a:tt)*) => { $crate::process::out_line(&format!($($a)*)) };
+}
+
 /// Marker payload used to unwind out of a run whose expansion budget is exhausted.
 pub struct BudgetExceeded;
 
